@@ -138,7 +138,7 @@ class Acc:
         self.d = {"item": item_name, "n_queries": 0, "nontrivial": 0, "levels": {}, "samples": [], "violations": [],
                   "inconclusive": [], "paths": 0, "encodings": 0, "validated": 0, "extra": {}}
 
-    def query(self, prover, topo, encname, label, goal, dom=(), pc=(), on_sat=None, sample=True, extra=(), tag=None):
+    def query(self, prover, topo, encname, label, goal, dom=(), pc=(), on_sat=None, sample=True, extra=(), tag=None, retry_envs=None):
         """prove goal; on sat call on_sat(model)->violation dict | None (None = does not reproduce)."""
         d = self.d
         v = prover.prove(goal, domain=dom, pc=pc, extra=extra)
@@ -158,6 +158,24 @@ class Acc:
             d["inconclusive"].append(f"{nm} {encname} {label}: solver {v.status}")
             return False
         viol = on_sat(v.model) if on_sat else None
+        if viol is None and on_sat is not None:
+            # the abstract model may be inconsistent with the real exp/log/pow: fix the parameters, fold, solve again
+            envs = retry_envs
+            if envs is None and topo is not None:
+                rr = random.Random(len(label))
+                envs = []
+                for _ in range(3):
+                    e = numrun.sample_env(topo, rr)
+                    envs.append({k: e[k] for k in T_.param_names(topo) if k in e})
+            if envs:
+                fv = set(discharge.free_vars(goal))
+                for c in list(dom) + list(pc) + list(extra):
+                    fv |= set(discharge.free_vars(c))
+                envs = [{k: x for k, x in e.items() if k in fv} for e in envs]
+                m2 = prover.retry_concrete(goal, dom, pc, extra, envs)
+                if m2 is not None:
+                    viol = on_sat(m2)
+                    d["extra"]["concretised_retries"] = d["extra"].get("concretised_retries", 0) + 1
         if viol is None:
             d["inconclusive"].append(f"{nm} {encname} {label}: sat model does not reproduce on the real float code")
         else:
